@@ -176,6 +176,17 @@ def synth_phase(rng, n, reversing=True):
     return out
 
 
+def fast_phase(rng, ncycles):
+    """A very fast / coarsely sampled oscillation: 2-4 samples per cycle, so that steps INSIDE a cycle lie between pi and the wrap
+    threshold (an advance of more than pi is still an advance: round-2 seed C13-4 np.unwrap-ed it into a decrease)."""
+    out = []
+    for _ in range(ncycles):
+        k = rng.choice([2, 3, 3, 4])
+        s, e = rng.uniform(0.02, 0.5), rng.uniform(TWO_PI - 0.5, TWO_PI - 0.02)
+        out += [s] + sorted(rng.uniform(s + 0.05, e - 0.05) for _ in range(k - 2)) + [e]
+    return out
+
+
 def enum_block(length, prefix):
     rest = length - len(prefix)
     for tail in itertools.product(range(len(ALPHABET)), repeat=rest):
